@@ -174,6 +174,9 @@ def case_backtest(ctx, spec):
         except Exception as e:
             if any(k in str(e) for k in c10.DEP_DISCARD):
                 raise Discard("dependency did not converge")
+            if fam == "fixed_income_lazy_securities_created_late" and "price is NaN" in str(e):
+                # every price of this data set is finite: the position that 'has no price' was marked on the wrong row
+                raise Violation("a fixed-income book built from the second date on raised %s: %s" % (type(e).__name__, str(e)[:200]), signature="c01:lazy-fi-created-late")
             raise Discard("run raised (C10's business): %s" % type(e).__name__)
     finally:
         interp.Probe.registry.pop(key, None)
@@ -212,8 +215,14 @@ def probe_spec(draw):
         from . import c17
 
         spec = draw(c17.run_spec())
+        lazy_kid = any(isinstance(c, dict) and c.get("lazy") for _, nd_ in gen.walk_nodes(spec["tree"]) for c in nd_.get("children") or [])
         spec = {k_: v for k_, v in spec.items() if k_ not in ("kinds", "weights", "nested", "target_sub")}
         spec["family"] = "fixed_income"
+        if lazy_kid and len(spec["dates"]) >= 3 and not any(a[0] == "TradeNoUpdate" for a in spec["tree"]["algos"]):
+            # the book is only built from the second date on: securities declared lazily are created - and marked for the first time -
+            # on a date that is not the first row of the data
+            spec["tree"]["algos"].insert(1, ["RunAfterDate", {"date": spec["dates"][0]}])
+            spec["family"] = "fixed_income_lazy_securities_created_late"
     elif k == 1:
         # leveraged market-value books, some of coupon-paying or hedge securities, some going bankrupt
         from . import c16
